@@ -92,3 +92,36 @@ Theorem C12_table_instance : forall T, table_wf T = true -> table_ror_all T = tr
   (forall x d s y d', In (y, d') (snd (t_body T x d s)) -> y < x) /\ (forall x, t_ror T x = true).
 Proof. intros T W R. split; [exact (table_body_lower T W)|exact (table_ror T R)]. Qed.
 Print Assumptions C12_table_instance.
+
+(* ---- incoming frames after an upward failure (C12/C12Segments.v) ----
+   "later incoming frames are processed normally": YowNoiseSegmentsLayer.receive cuts a frame off
+   its read buffer before handing it upward; when that delivery raises (undecodable frame, a handler
+   rejecting the stanza, an application callback raising) the frames that arrived in the same network
+   read must not be lost, duplicated or reordered.  `bad f` = "the layers above raise on frame f";
+   the statement is for every such predicate, every frame list the peer sent, every chunking of the
+   byte stream and every prefix of it:
+     - the frames handed upward so far, followed by the complete frames still in the read buffer,
+       are exactly the frames sent, in order, and the unfinished tail is untouched;
+     - after a read that returned normally nothing complete is left waiting: all frames sent so far
+       were handed upward. *)
+From YV Require Import C05.C05Model C05.C05Proofs C12.C12Segments.
+
+Theorem C12_incoming_survives_failure : forall bad chunks fs partial calls b,
+  Forall valid_frame fs -> incomplete partial ->
+  concat chunks = concat (map wire fs) ++ partial ->
+  run_exc bad [] chunks = (calls, b) ->
+  attempted calls ++ fst (P b) = fs /\ snd (P b) = partial /\
+  (forall calls' att, calls = calls' ++ [(att, false)] -> attempted calls = fs /\ b = partial).
+Proof. exact incoming_survives_failure. Qed.
+Print Assumptions C12_incoming_survives_failure.
+
+(* per read: a read that raised handed upward some accepted frames and then the failing one, last;
+   a read that returned handed upward accepted frames only (a failing frame is never passed over and
+   is not handed upward a second time, by the conservation statement above). *)
+Theorem C12_failing_frame_ends_the_read : forall bad chunks calls b,
+  run_exc bad [] chunks = (calls, b) ->
+  Forall (fun c => snd c = true ->
+            exists pre f, fst c = pre ++ [f] /\ bad f = true /\ all_good bad pre = true) calls /\
+  Forall (fun c => snd c = false -> all_good bad (fst c) = true) calls.
+Proof. exact failing_frame_not_redelivered. Qed.
+Print Assumptions C12_failing_frame_ends_the_read.
